@@ -421,6 +421,7 @@ def log_signature(log):
     casfail = 0
     open_ops = set()
     interleaved = False
+    mo = {}
     with open(log) as f:
         for line in f:
             if line.startswith("#"):
@@ -444,6 +445,9 @@ def log_signature(log):
                 if kind == "cas2" and p[-1] == "0":
                     casfail += 1
             hist[key] = hist.get(key, 0) + 1
+            if p[-1].startswith("mo") and kind in ("ld", "st", "xchg", "fadd", "fsub", "fand", "for", "fxor", "cas"):
+                mk = "%s %s %s" % (p[2], kind, re.sub(r"\d+", "#", cell))
+                mo.setdefault(mk, set()).add(p[-1])
             if last is not None and tid != last:
                 switches += 1
                 if len(open_ops) >= 2 or (open_ops and tid not in open_ops) or (last in open_ops):
@@ -451,7 +455,7 @@ def log_signature(log):
             last = tid
             h.update(("%s %s %s\n" % (tid, kind, cell)).encode())
     return {"sig": h.hexdigest()[:16], "events": n, "switches": switches, "casfail": casfail,
-            "interleaved": interleaved, "hist": hist}
+            "interleaved": interleaved, "hist": hist, "mo": {k: sorted(v) for k, v in mo.items()}}
 
 
 # ----------------------------------------------------------------------------- known findings / verdict / evidence
@@ -501,3 +505,40 @@ def head_lines(path, n=40):
         return ls
     except OSError:
         return []
+
+
+# ----------------------------------------------------------------------------- memory-order profile
+
+MO_RANK = {"mo0": 0, "mo1": 1, "mo2": 2, "mo3": 2, "mo4": 3, "mo5": 4}
+
+
+def mo_weaker(new, base):
+    """is memory order `new` not at least as strong as `base`?  acquire (mo2) and release (mo3)
+    are incomparable: replacing one by the other counts as weaker."""
+    if new == base:
+        return False
+    if MO_RANK[new] > MO_RANK[base]:
+        return False
+    return True
+
+
+def mo_profile_path(pid):
+    return os.path.join(VERIF, "tools", "mo_profile", pid + ".json")
+
+
+def mo_compare(pid, observed):
+    """compare the memory orders seen at each atomic site (function, kind, cell) with the
+    committed expectation; returns a list of human-readable weakenings"""
+    p = mo_profile_path(pid)
+    if not os.path.exists(p):
+        return []
+    base = json.load(open(p))
+    bad = []
+    for site, mos in observed.items():
+        exp = base.get(site)
+        if not exp:
+            continue
+        for m in mos:
+            if all(mo_weaker(m, e) for e in exp):
+                bad.append("%s: expected %s, saw %s" % (site, "/".join(exp), m))
+    return sorted(set(bad))
